@@ -14,7 +14,7 @@
    skipping argument needs (a common prefix contributes nothing; equal maps
    have an empty diff; one-sided diffs). The equation itself is checked by the
    correspondence on the real tree shapes (model = implementation = oracle). *)
-From Coq Require Import NArith List Bool Lia.
+From Coq Require Import NArith ZArith PeanoNat List Bool Lia.
 From Dolt Require Import Prolly.Tree Prolly.Cursor C13.Model C13.Spec.
 Import ListNotations.
 Local Open Scope N_scope.
@@ -97,3 +97,412 @@ Example tree_diff_example :
   tree_diff node_eqb false ta tb = Some (list_diff (flatten ta) (flatten tb)) /\
   list_diff (flatten ta) (flatten tb) = [Modified 7 70 71; Added 8 80].
 Proof. repeat split; try (apply wfb_sound; vm_compute; reflexivity); vm_compute; reflexivity. Qed.
+
+(* ======================================================================== *)
+(* The differ is the declarative diff, for trees of every depth              *)
+(* ======================================================================== *)
+
+Lemma list_diff_g_cons am ka va a kb vb b :
+  list_diff_g am ((ka, va) :: a) ((kb, vb) :: b) =
+  if ka <? kb then Removed ka va :: list_diff_g am a ((kb, vb) :: b)
+  else if kb <? ka then Added kb vb :: list_diff_g am ((ka, va) :: a) b
+  else if am || negb (va =? vb) then Modified ka va vb :: list_diff_g am a b
+  else list_diff_g am a b.
+Proof. reflexivity. Qed.
+
+Lemma list_diff_g_nil_r am a : list_diff_g am a [] = map (fun e => Removed (fst e) (snd e)) a.
+Proof. destruct a as [|[k v] a]; reflexivity. Qed.
+
+Lemma list_diff_g_false a : forall b, list_diff_g false a b = list_diff a b.
+Proof.
+  induction a as [|[ka va] a IHa]; intros b; [reflexivity|].
+  induction b as [|[kb vb] b IHb]; [reflexivity|].
+  rewrite list_diff_g_cons, list_diff_head. cbn [orb].
+  destruct (ka <? kb); [f_equal; apply IHa|].
+  destruct (kb <? ka); [f_equal; exact IHb|].
+  destruct (va =? vb); cbn [negb]; [apply IHa | f_equal; apply IHa].
+Qed.
+
+Lemma list_diff_g_common_prefix p a b : list_diff_g false (p ++ a) (p ++ b) = list_diff_g false a b.
+Proof. rewrite !list_diff_g_false. apply list_diff_common_prefix. Qed.
+
+Lemma canonical_filter_map_added b : canonical_filter (map (fun e : kv => Added (fst e) (snd e)) b) = map (fun e => Added (fst e) (snd e)) b.
+Proof. induction b as [|e b IH]; [reflexivity|]. cbn [map canonical_filter filter]. fold (canonical_filter (map (fun e : kv => Added (fst e) (snd e)) b)). rewrite IH. reflexivity. Qed.
+
+Lemma canonical_filter_map_removed b : canonical_filter (map (fun e : kv => Removed (fst e) (snd e)) b) = map (fun e => Removed (fst e) (snd e)) b.
+Proof. induction b as [|e b IH]; [reflexivity|]. cbn [map canonical_filter filter]. fold (canonical_filter (map (fun e : kv => Removed (fst e) (snd e)) b)). rewrite IH. reflexivity. Qed.
+
+Lemma canonical_filter_cons c l :
+  canonical_filter (c :: l) =
+  if match c with Modified _ v v' => negb (v =? v') | _ => true end then c :: canonical_filter l else canonical_filter l.
+Proof. reflexivity. Qed.
+
+(* makeDiffCallBack after either flag value leaves the plain diff *)
+Lemma canonical_filter_g am a : forall b, canonical_filter (list_diff_g am a b) = list_diff_g false a b.
+Proof.
+  induction a as [|[ka va] a IHa]; intros b; [apply canonical_filter_map_added|].
+  induction b as [|[kb vb] b IHb]; [apply canonical_filter_map_removed|].
+  rewrite !list_diff_g_cons. destruct (ka <? kb).
+  - rewrite canonical_filter_cons. f_equal. apply IHa.
+  - destruct (kb <? ka).
+    + rewrite canonical_filter_cons. f_equal. exact IHb.
+    + cbn [orb]. destruct (va =? vb) eqn:E; cbn [negb]; rewrite ?orb_false_r, ?orb_true_r.
+      * destruct am; [rewrite canonical_filter_cons, E; cbn [negb]|]; apply IHa.
+      * rewrite canonical_filter_cons, E. cbn [negb]. f_equal. apply IHa.
+Qed.
+
+Lemma split_unique (l1 : list kv) : forall l2 r1 r2 e,
+  ksorted (keys (l1 ++ e :: r1)) -> l1 ++ e :: r1 = l2 ++ e :: r2 -> l1 = l2.
+Proof.
+  induction l1 as [|a l1 IH]; intros l2 r1 r2 e Hs E.
+  - destruct l2 as [|b l2]; [reflexivity|]. exfalso. cbn [app] in E. injection E as E1 E2. subst b.
+    cbn [app keys map] in Hs. inversion Hs as [|? ? _ Hf]; subst. rewrite Forall_forall in Hf.
+    assert (Hin : In (fst e) (map fst (l2 ++ e :: r2))).
+    { apply in_map. apply in_or_app. right. left. reflexivity. }
+    specialize (Hf _ Hin). lia.
+  - destruct l2 as [|b l2].
+    + exfalso. cbn [app] in E. injection E as E1 E2. subst a.
+      cbn [app keys map] in Hs. inversion Hs as [|? ? _ Hf]; subst. rewrite Forall_forall in Hf.
+      assert (Hin : In (fst e) (map fst (l1 ++ e :: r1))).
+      { apply in_map. apply in_or_app. right. left. reflexivity. }
+      specialize (Hf _ Hin). lia.
+    + cbn [app] in E. injection E as E1 E2. subst b. f_equal.
+      cbn [app keys map] in Hs. inversion Hs as [|? ? Hs' _]; subst. apply (IH l2 r1 r2 e Hs' E2).
+Qed.
+
+Lemma same_rest (G pre1 pre2 X R1 R2 : list kv) :
+  ksorted (keys G) -> X <> [] -> G = pre1 ++ X ++ R1 -> G = pre2 ++ X ++ R2 -> X ++ R1 = X ++ R2.
+Proof.
+  intros Hs HX E1 E2. destruct X as [|e X]; [contradiction|].
+  cbn [app] in *. rewrite E1 in Hs. rewrite E1 in E2.
+  pose proof (split_unique pre1 pre2 (X ++ R1) (X ++ R2) e Hs E2) as Hp. subst pre2.
+  apply app_inv_head in E2. exact E2.
+Qed.
+
+Lemma sorted_mid (b m r : list kv) : ksorted (keys (b ++ m ++ r)) -> ksorted (keys m).
+Proof.
+  rewrite !keys_app. intros H. apply ksorted_app in H as (_ & H & _). apply ksorted_app in H as (H & _). exact H.
+Qed.
+
+Lemma cur_item_some c x : cur_item c = Some x -> exists fx par, c = (x :: fx) :: par.
+Proof. destruct c as [|[|y fx] par]; cbn [cur_item]; intros H; try discriminate. injection H as ->. eauto. Qed.
+
+Lemma cur_item_valid c x : cur_item c = Some x -> cur_valid c = true.
+Proof. destruct c as [|[|y fx] par]; cbn [cur_item]; intros H; try discriminate. reflexivity. Qed.
+
+Section Correct.
+  Variable addr_eqb : node -> node -> bool.
+  Hypothesis addr_inj : forall x y, addr_eqb x y = true -> x = y.
+  Variables Ta Tb : list kv.
+  Hypothesis HTa : ksorted (keys Ta).
+  Hypothesis HTb : ksorted (keys Tb).
+
+  Lemma equal_parents_true f t :
+    equal_parents addr_eqb f t = true ->
+    exists fr g0 gr pf tr h0 hr pt,
+      f = fr :: (g0 :: gr) :: pf /\ t = tr :: (h0 :: hr) :: pt /\ equal_items addr_eqb g0 h0 = true.
+  Proof.
+    unfold equal_parents. destruct f as [|fr [|[|g0 gr] pf]]; try discriminate.
+    destruct t as [|tr [|[|h0 hr] pt]]; try discriminate. intros H.
+    exists fr, g0, gr, pf, tr, h0, hr, pt. auto.
+  Qed.
+
+  (* the node under the parents' (equal) current entries is the same on both sides,
+     and both cursors stand on the same entry of it: the rest of the node is the same *)
+  Lemma frames_equal T1 T2 i x fx g0 gr pf y ty h0 hr pt :
+    ksorted (keys T1) ->
+    cinv T1 i ((x :: fx) :: (g0 :: gr) :: pf) -> cinv T2 i ((y :: ty) :: (h0 :: hr) :: pt) ->
+    equal_items addr_eqb x y = true -> equal_items addr_eqb g0 h0 = true ->
+    flat_frame (x :: fx) = flat_frame (y :: ty).
+  Proof.
+    intros HT1 (_ & Hso1 & _ & Hli1 & Hpos1) (_ & _ & _ & Hli2 & _) Exy Egh.
+    cbn [linked] in Hli1, Hli2. destruct Hli1 as [[pre1 E1] _]. destruct Hli2 as [[pre2 E2] _].
+    pose proof (skip_sound addr_eqb addr_inj _ _ Exy) as HX.
+    pose proof (skip_sound addr_eqb addr_inj _ _ Egh) as HG.
+    rewrite !flat_frame_cons. rewrite <- HX.
+    rewrite flat_frame_cons in E1. rewrite flat_frame_cons, <- HX, <- HG in E2.
+    apply (same_rest (flat_item g0) pre1 pre2 (flat_item x) (flat_frame fx) (flat_frame ty)); try assumption.
+    - unfold pos_ok in Hpos1. cbn [sems] in Hpos1. inversion Hpos1 as [|? ? _ Hp].
+      inversion Hp as [|? ? Hsuf _]. destruct Hsuf as [b Hb]. rewrite flat_frame_cons, <- app_assoc in Hb.
+      rewrite Hb in HT1. apply (sorted_mid _ _ _ HT1).
+    - destruct Hso1 as [Hf _]. inversion Hf as [|? ? Hx _]; subst. apply (item_ok_ne _ _ Hx).
+  Qed.
+
+  (* skipCommon: both cursors move past one common run of key/value pairs; when the
+     current entries are equal the run contains at least that entry *)
+  Lemma skip_ok n : forall i pnew f t f' t',
+    cinv Ta i f -> cinv Tb i t ->
+    skip_common addr_eqb n pnew f t = Some (f', t') ->
+    cinv Ta i f' /\ cinv Tb i t' /\ length f' = length f /\ length t' = length t /\
+    exists p, cur_sem f = p ++ cur_sem f' /\ cur_sem t = p ++ cur_sem t' /\
+      (forall x y, cur_item f = Some x -> cur_item t = Some y -> equal_items addr_eqb x y = true ->
+                   exists p', p = flat_item x ++ p').
+  Proof.
+    induction n as [|n IH]; intros i pnew f t f' t' If It H; [discriminate|].
+    cbn [skip_common] in H.
+    destruct (cur_item f) as [x|] eqn:Ex.
+    2:{ injection H as <- <-. split; [exact If|]. split; [exact It|]. split; [reflexivity|]. split; [reflexivity|].
+        exists []. split; [reflexivity|]. split; [reflexivity|]. intros; discriminate. }
+    destruct (cur_item t) as [y|] eqn:Ey.
+    2:{ injection H as <- <-. split; [exact If|]. split; [exact It|]. split; [reflexivity|]. split; [reflexivity|].
+        exists []. split; [reflexivity|]. split; [reflexivity|]. intros; discriminate. }
+    destruct (equal_items addr_eqb x y) eqn:Exy; cbn [negb] in H.
+    2:{ injection H as <- <-. split; [exact If|]. split; [exact It|]. split; [reflexivity|]. split; [reflexivity|].
+        exists []. split; [reflexivity|]. split; [reflexivity|].
+        intros x' y' Hx' Hy' He. injection Hx' as <-. injection Hy' as <-. congruence. }
+    pose proof (skip_sound addr_eqb addr_inj _ _ Exy) as HX.
+    destruct (pnew && equal_parents addr_eqb f t) eqn:Eup.
+    - (* skipCommonParents *)
+      apply andb_true_iff in Eup as [_ Eup].
+      destruct (equal_parents_true f t Eup) as (fr & g0 & gr & pf & tr & h0 & hr & pt & -> & -> & Egh).
+      cbn [tl] in H. cbn [cur_item] in Ex, Ey.
+      destruct fr as [|x0 fx]; [discriminate|]. injection Ex as ->.
+      destruct tr as [|y0 ty]; [discriminate|]. injection Ey as ->.
+      destruct (skip_common addr_eqb n true ((g0 :: gr) :: pf) ((h0 :: hr) :: pt)) as [[qf qt]|] eqn:E1; [|discriminate].
+      pose proof (cinv_tl _ _ _ _ _ If) as Ipf. pose proof (cinv_tl _ _ _ _ _ It) as Ipt.
+      destruct (IH (S i) true _ _ _ _ Ipf Ipt E1) as (Iqf & Iqt & Lqf & Lqt & p1 & S1 & S2 & Hhead).
+      destruct (Hhead g0 h0 eq_refl eq_refl Egh) as (p2 & ->).
+      destruct (refetch_cinv _ _ _ Iqf) as (Irf & Srf). destruct (refetch_cinv _ _ _ Iqt) as (Irt & Srt).
+      destruct (IH i true _ _ _ _ Irf Irt H) as (If' & It' & Lf' & Lt' & p3 & S3 & S4 & _).
+      pose proof (skip_sound addr_eqb addr_inj _ _ Egh) as HG.
+      cbn [cur_sem] in S1, S2. rewrite flat_frame_cons, <- !app_assoc in S1, S2. rewrite <- HG in S2.
+      apply app_inv_head in S1, S2.
+      pose proof (frames_equal Ta Tb i x fx g0 gr pf y ty h0 hr pt HTa If It Exy Egh) as HF.
+      split; [exact If'|]. split; [exact It'|].
+      split; [rewrite Lf', refetch_length, Lqf; reflexivity|].
+      split; [rewrite Lt', refetch_length, Lqt; reflexivity|].
+      { exists (flat_frame (x :: fx) ++ p2 ++ p3). split; [|split].
+        * cbn [cur_sem above tl]. rewrite S1, <- Srf, S3, <- !app_assoc. reflexivity.
+        * cbn [cur_sem above tl]. rewrite S2, <- Srt, S4, HF, <- !app_assoc. reflexivity.
+        * intros x' y' Hx' _ _. injection Hx' as <-. exists (flat_frame fx ++ p2 ++ p3).
+          rewrite flat_frame_cons, <- app_assoc. reflexivity. }
+    - (* advance both *)
+      destruct (advance_cinv Ta i f If (cur_item_valid _ _ Ex)) as (Iaf & Laf & x1 & Ex1 & _ & Sf).
+      destruct (advance_cinv Tb i t It (cur_item_valid _ _ Ey)) as (Iat & Lat & y1 & Ey1 & _ & St).
+      rewrite Ex in Ex1. injection Ex1 as <-. rewrite Ey in Ey1. injection Ey1 as <-.
+      destruct (IH i _ _ _ _ _ Iaf Iat H) as (If' & It' & Lf' & Lt' & p' & S3 & S4 & _).
+      split; [exact If'|]. split; [exact It'|]. split; [congruence|]. split; [congruence|].
+      exists (flat_item x ++ p'). split; [|split].
+      + rewrite Sf, S3, <- app_assoc. reflexivity.
+      + rewrite St, S4, <- HX, <- app_assoc. reflexivity.
+      + intros x' y' Hx' _ _. injection Hx' as <-. exists p'. reflexivity.
+  Qed.
+
+  (* ---- the stop cursor of a whole-tree diff ---------------------------------- *)
+
+  Lemma repeat_snoc {A} (x : A) n : repeat x n ++ [x] = x :: repeat x n.
+  Proof. induction n as [|n IH]; [reflexivity|]. cbn [repeat app]. rewrite IH. reflexivity. Qed.
+
+  Lemma rev_repeat {A} (x : A) n : rev (repeat x n) = repeat x n.
+  Proof. induction n as [|n IH]; [reflexivity|]. cbn [repeat rev]. rewrite IH. apply repeat_snoc. Qed.
+
+  Lemma live_rev_head c : c <> [] -> live c -> exists r rest, rev c = r :: rest /\ r <> [].
+  Proof.
+    intros Hne Hl. destruct (rev c) as [|r rest] eqn:E.
+    - exfalso. apply Hne. rewrite <- (rev_involutive c), E. reflexivity.
+    - exists r, rest. split; [reflexivity|]. unfold live in Hl. rewrite Forall_forall in Hl. apply Hl.
+      apply in_rev. rewrite E. left. reflexivity.
+  Qed.
+
+  (* compare(cur, pastEnd) < 0 exactly when the cursor is still in bounds *)
+  Lemma in_bounds_past_end T i c s : cinv T i c -> in_bounds c (repeat [] (S s)) = cur_valid c.
+  Proof.
+    intros (Hne & _ & Hlod & _ & _). unfold in_bounds. destruct (cur_valid c) eqn:V; [|reflexivity].
+    cbn [andb]. pose proof (live_or_dead_valid c Hne Hlod V) as Hl.
+    destruct (live_rev_head c Hne Hl) as (r & rest & E & Hr).
+    unfold cur_compare. rewrite E, rev_repeat. cbn [repeat cmp_rf length].
+    destruct r as [|r0 r']; [contradiction|]. cbn [length].
+    destruct (Z.of_nat 0 - Z.of_nat (S (length r')) =? 0)%Z eqn:E0; [apply Z.eqb_eq in E0; lia|].
+    apply Z.ltb_lt. lia.
+  Qed.
+
+  Lemma leaf_view T c :
+    cinv T 0 c -> cur_valid c = true ->
+    exists k v, cur_kv c = Some (k, v) /\ cur_sem c = (k, v) :: cur_sem (advance c)
+                /\ cinv T 0 (advance c) /\ length (advance c) = length c.
+  Proof.
+    intros Hc V. destruct (advance_cinv T 0 c Hc V) as (Ia & La & x & Ex & Hx & Sx).
+    destruct x as [k [v|cn n]].
+    - exists k, v. unfold cur_kv. rewrite Ex. split; [reflexivity|]. split; [exact Sx|]. split; assumption.
+    - unfold item_ok in Hx. cbn [snd] in Hx. destruct Hx as [Hx _]. discriminate.
+  Qed.
+
+  Lemma invalid_view T i c : cinv T i c -> cur_valid c = false -> cur_kv c = None /\ cur_sem c = [].
+  Proof.
+    intros (Hne & _ & Hlod & _ & _) V. split.
+    - unfold cur_kv. destruct c as [|[|x f] par]; [reflexivity|reflexivity|discriminate].
+    - apply dead_sem. apply (live_or_dead_invalid c Hne Hlod V).
+  Qed.
+
+  (* ---- partial correctness of the Next loop ------------------------------------- *)
+
+  Lemma diff_ok n : forall am f t sa sb r,
+    cinv Ta 0 f -> cinv Tb 0 t ->
+    diff_loop addr_eqb n am f t (repeat [] (S sa)) (repeat [] (S sb)) = Some r ->
+    r = list_diff_g am (cur_sem f) (cur_sem t).
+  Proof.
+    induction n as [|n IH]; intros am f t sa sb r If It H; [discriminate|].
+    cbn [diff_loop] in H.
+    rewrite (in_bounds_past_end Ta 0 f sa If), (in_bounds_past_end Tb 0 t sb It) in H.
+    destruct (cur_valid f) eqn:Vf; destruct (cur_valid t) eqn:Vt; cbv iota in H.
+    - destruct (leaf_view Ta f If Vf) as (fk & fv & Kf & Sf & Iaf & _).
+      destruct (leaf_view Tb t It Vt) as (tk & tv & Kt & St & Iat & _).
+      rewrite Kf, Kt in H. rewrite Sf, St, list_diff_g_cons.
+      destruct (fk <? tk).
+      { destruct (diff_loop addr_eqb n am (advance f) t _ _) as [l|] eqn:E; [|discriminate].
+        injection H as <-. f_equal. rewrite (IH _ _ _ _ _ _ Iaf It E), St. reflexivity. }
+      destruct (tk <? fk).
+      { destruct (diff_loop addr_eqb n am f (advance t) _ _) as [l|] eqn:E; [|discriminate].
+        injection H as <-. f_equal. rewrite (IH _ _ _ _ _ _ If Iat E), Sf. reflexivity. }
+      destruct (am || negb (fv =? tv)) eqn:Em.
+      { destruct (diff_loop addr_eqb n am (advance f) (advance t) _ _) as [l|] eqn:E; [|discriminate].
+        injection H as <-. f_equal. apply (IH _ _ _ _ _ _ Iaf Iat E). }
+      destruct (skip_common addr_eqb n true (advance f) (advance t)) as [[f' t']|] eqn:Es; [|discriminate].
+      destruct (skip_ok n 0 true _ _ _ _ Iaf Iat Es) as (If' & It' & _ & _ & p & S1 & S2 & _).
+      rewrite (IH _ _ _ _ _ _ If' It' H). rewrite S1, S2.
+      apply orb_false_iff in Em as [-> _]. symmetry. apply list_diff_g_common_prefix.
+    - destruct (leaf_view Ta f If Vf) as (fk & fv & Kf & Sf & Iaf & _).
+      destruct (invalid_view Tb 0 t It Vt) as (Kt & St).
+      rewrite Kf in H. rewrite Sf, St, list_diff_g_nil_r. cbn [map fst snd].
+      destruct (diff_loop addr_eqb n am (advance f) t _ _) as [l|] eqn:E; [|discriminate].
+      injection H as <-. f_equal. rewrite (IH _ _ _ _ _ _ Iaf It E), St. apply list_diff_g_nil_r.
+    - destruct (invalid_view Ta 0 f If Vf) as (Kf & Sf).
+      destruct (leaf_view Tb t It Vt) as (tk & tv & Kt & St & Iat & _).
+      rewrite Kt in H. rewrite Sf, St. cbn [list_diff_g map fst snd].
+      destruct (diff_loop addr_eqb n am f (advance t) _ _) as [l|] eqn:E; [|discriminate].
+      injection H as <-. f_equal. rewrite (IH _ _ _ _ _ _ If Iat E), Sf. reflexivity.
+    - destruct (invalid_view Ta 0 f If Vf) as (_ & Sf). destruct (invalid_view Tb 0 t It Vt) as (_ & St).
+      injection H as <-. rewrite Sf, St. reflexivity.
+  Qed.
+
+  (* ---- fuel adequacy ---------------------------------------------------------------- *)
+
+  Lemma cinv_sem_le T i c : cinv T i c -> (length (cur_sem c) <= length T)%nat.
+  Proof.
+    intros (Hne & _ & _ & _ & Hpos). unfold pos_ok in Hpos. rewrite (sems_hd _ Hne) in Hpos.
+    inversion Hpos as [|? ? Hs _]; subst. apply suffix_length, Hs.
+  Qed.
+
+  Lemma skip_total n : forall i pnew f t,
+    cinv Ta i f -> cinv Tb i t ->
+    (length (cur_sem f) + (length f - 1) * S (length Ta) < n)%nat ->
+    skip_common addr_eqb n pnew f t <> None.
+  Proof.
+    induction n as [|n IH]; intros i pnew f t If It Hn; [exfalso; exact (Nat.nlt_0_r _ Hn)|].
+    cbn [skip_common].
+    destruct (cur_item f) as [x|] eqn:Ex; [|discriminate].
+    destruct (cur_item t) as [y|] eqn:Ey; [|discriminate].
+    destruct (equal_items addr_eqb x y) eqn:Exy; cbn [negb]; [|discriminate].
+    destruct (pnew && equal_parents addr_eqb f t) eqn:Eup.
+    - apply andb_true_iff in Eup as [_ Eup].
+      destruct (equal_parents_true f t Eup) as (fr & g0 & gr & pf & tr & h0 & hr & pt & -> & -> & Egh).
+      cbn [tl]. cbn [cur_item] in Ex, Ey.
+      destruct fr as [|x0 fx]; [discriminate|]. injection Ex as ->.
+      destruct tr as [|y0 ty]; [discriminate|]. injection Ey as ->.
+      pose proof (cinv_tl _ _ _ _ _ If) as Ipf. pose proof (cinv_tl _ _ _ _ _ It) as Ipt.
+      pose proof (cinv_sem_le _ _ _ Ipf) as Hle.
+      assert (Hx1 : (1 <= length (flat_item x))%nat).
+      { destruct If as (_ & [Hf _] & _). inversion Hf as [|? ? Hx _]; subst.
+        pose proof (item_ok_ne _ _ Hx). destruct (flat_item x); [contradiction|cbn; lia]. }
+      cbn [length] in Hn. replace (S (S (length pf)) - 1)%nat with (S (length pf)) in Hn by lia.
+      rewrite Nat.mul_succ_l in Hn. set (K := (length pf * S (length Ta))%nat) in *.
+      assert (Hsf : length (cur_sem ((x :: fx) :: (g0 :: gr) :: pf))
+                    = (length (flat_frame (x :: fx)) + length (above ((g0 :: gr) :: pf)))%nat)
+        by (cbn [cur_sem]; apply app_length).
+      assert (HF1 : (1 <= length (flat_frame (x :: fx)))%nat)
+        by (rewrite flat_frame_cons, app_length; lia).
+      destruct (skip_common addr_eqb n true ((g0 :: gr) :: pf) ((h0 :: hr) :: pt)) as [[qf qt]|] eqn:E1.
+      + destruct (skip_ok n (S i) true _ _ _ _ Ipf Ipt E1) as (Iqf & Iqt & Lqf & Lqt & p1 & S1 & S2 & Hhead).
+        destruct (Hhead g0 h0 eq_refl eq_refl Egh) as (p2 & ->).
+        destruct (refetch_cinv _ _ _ Iqf) as (Irf & Srf). destruct (refetch_cinv _ _ _ Iqt) as (Irt & Srt).
+        apply (IH i true _ _ Irf Irt).
+        cbn [cur_sem] in S1. rewrite flat_frame_cons, <- !app_assoc in S1. apply app_inv_head in S1.
+        assert (Hq : (length (cur_sem qf) <= length (above ((g0 :: gr) :: pf)))%nat).
+        { cbn [above tl]. rewrite S1, app_length. lia. }
+        rewrite Srf, refetch_length, Lqf. cbn [length].
+        replace (S (S (length pf)) - 1)%nat with (S (length pf)) by lia. rewrite Nat.mul_succ_l. fold K. lia.
+      + exfalso. apply (IH (S i) true _ _ Ipf Ipt); [|exact E1].
+        cbn [length]. replace (S (length pf) - 1)%nat with (length pf) by lia. fold K. lia.
+    - destruct (advance_cinv Ta i f If (cur_item_valid _ _ Ex)) as (Iaf & Laf & x1 & Ex1 & Hx1 & Sf).
+      destruct (advance_cinv Tb i t It (cur_item_valid _ _ Ey)) as (Iat & _).
+      apply (IH i _ _ _ Iaf Iat). rewrite Laf.
+      pose proof (item_ok_ne _ _ Hx1). rewrite Sf, app_length in Hn.
+      set (K := ((length f - 1) * S (length Ta))%nat) in *.
+      destruct (flat_item x1); [contradiction|cbn [length] in Hn; lia].
+  Qed.
+
+  Lemma diff_total n : forall am f t sa sb,
+    cinv Ta 0 f -> cinv Tb 0 t ->
+    (length (cur_sem f) + length (cur_sem t) + (length f - 1) * S (length Ta) + 1 < n)%nat ->
+    diff_loop addr_eqb n am f t (repeat [] (S sa)) (repeat [] (S sb)) <> None.
+  Proof.
+    induction n as [|n IH]; intros am f t sa sb If It Hn; [exfalso; exact (Nat.nlt_0_r _ Hn)|].
+    cbn [diff_loop].
+    rewrite (in_bounds_past_end Ta 0 f sa If), (in_bounds_past_end Tb 0 t sb It).
+    set (K := ((length f - 1) * S (length Ta))%nat) in *.
+    destruct (cur_valid f) eqn:Vf; destruct (cur_valid t) eqn:Vt; cbv iota.
+    - destruct (leaf_view Ta f If Vf) as (fk & fv & Kf & Sf & Iaf & Laf).
+      destruct (leaf_view Tb t It Vt) as (tk & tv & Kt & St & Iat & Lat).
+      rewrite Kf, Kt. rewrite Sf, St in Hn. cbn [length] in Hn.
+      destruct (fk <? tk).
+      { pose proof (IH am (advance f) t sa sb Iaf It) as H. rewrite Laf, St in H. cbn [length] in H.
+        destruct (diff_loop addr_eqb n am (advance f) t _ _); [discriminate|]. exfalso. apply H; [lia|reflexivity]. }
+      destruct (tk <? fk).
+      { pose proof (IH am f (advance t) sa sb If Iat) as H. rewrite Sf in H. cbn [length] in H.
+        destruct (diff_loop addr_eqb n am f (advance t) _ _); [discriminate|]. exfalso. apply H; [lia|reflexivity]. }
+      destruct (am || negb (fv =? tv)).
+      { pose proof (IH am (advance f) (advance t) sa sb Iaf Iat) as H. rewrite Laf in H.
+        destruct (diff_loop addr_eqb n am (advance f) (advance t) _ _); [discriminate|]. exfalso. apply H; [lia|reflexivity]. }
+      destruct (skip_common addr_eqb n true (advance f) (advance t)) as [[f' t']|] eqn:Es.
+      + destruct (skip_ok n 0 true _ _ _ _ Iaf Iat Es) as (If' & It' & Lf' & _ & p & S1 & S2 & _).
+        apply (IH am f' t' sa sb If' It'). rewrite Lf', Laf.
+        rewrite S1, app_length in Hn. rewrite S2, app_length in Hn. lia.
+      + exfalso. apply (skip_total n 0 true _ _ Iaf Iat); [rewrite Laf; lia | exact Es].
+    - destruct (leaf_view Ta f If Vf) as (fk & fv & Kf & Sf & Iaf & Laf).
+      destruct (invalid_view Tb 0 t It Vt) as (Kt & St).
+      rewrite Kf. rewrite Sf in Hn. cbn [length] in Hn.
+      pose proof (IH am (advance f) t sa sb Iaf It) as H. rewrite Laf in H.
+      destruct (diff_loop addr_eqb n am (advance f) t _ _); [discriminate|]. exfalso. apply H; [lia|reflexivity].
+    - destruct (invalid_view Ta 0 f If Vf) as (Kf & Sf).
+      destruct (leaf_view Tb t It Vt) as (tk & tv & Kt & St & Iat & Lat).
+      rewrite Kt. rewrite St in Hn. cbn [length] in Hn.
+      pose proof (IH am f (advance t) sa sb If Iat) as H.
+      destruct (diff_loop addr_eqb n am f (advance t) _ _); [discriminate|]. exfalso. apply H; [lia|reflexivity].
+    - discriminate.
+  Qed.
+End Correct.
+
+Lemma wf_root_ksorted t : wf_root t -> ksorted (keys (flatten t)).
+Proof. intros [->|[_ H]]; [constructor|exact H]. Qed.
+
+(* THE HEADLINE: for every pair of well-formed trees — any depths, any shapes,
+   related or not — the differ as implemented (two cursors, skipCommon /
+   skipCommonParents, either value of considerAllRowsModified) terminates within
+   the model's fuel and emits exactly the declarative diff of the two contents. *)
+Theorem tree_diff_spec (addr_eqb : node -> node -> bool) :
+  (forall x y, addr_eqb x y = true -> x = y) ->
+  forall am a b, wf_root a -> wf_root b ->
+    tree_diff addr_eqb am a b = Some (list_diff_g am (flatten a) (flatten b)).
+Proof.
+  intros addr_inj am a b Ha Hb.
+  pose proof (wf_root_ksorted a Ha) as Sa. pose proof (wf_root_ksorted b Hb) as Sb.
+  pose proof (cursor_at_start_cinv a Ha) as Ia. pose proof (cursor_at_start_cinv b Hb) as Ib.
+  unfold tree_diff, cursor_past_end.
+  destruct (diff_loop addr_eqb (diff_fuel a b) am (cursor_at_start a) (cursor_at_start b)
+                      (repeat [] (S (level a))) (repeat [] (S (level b)))) as [r|] eqn:E.
+  - f_equal. rewrite (diff_ok addr_eqb addr_inj _ _ Sa _ _ _ _ _ _ _ Ia Ib E).
+    rewrite !cursor_at_start_sem. reflexivity.
+  - exfalso. apply (diff_total addr_eqb addr_inj _ _ Sa (diff_fuel a b) am _ _ (level a) (level b) Ia Ib); [|exact E].
+    rewrite !cursor_at_start_sem, cursor_at_start_length. unfold diff_fuel.
+    replace (S (level a) - 1)%nat with (level a) by lia. nia.
+Qed.
+
+(* DiffMaps (either flag value): exactly the keys whose presence or value differs *)
+Theorem diff_maps_spec (addr_eqb : node -> node -> bool) :
+  (forall x y, addr_eqb x y = true -> x = y) ->
+  forall am a b, wf_root a -> wf_root b ->
+    diff_maps addr_eqb am a b = Some (list_diff (flatten a) (flatten b)).
+Proof.
+  intros addr_inj am a b Ha Hb. unfold diff_maps. rewrite (tree_diff_spec addr_eqb addr_inj am a b Ha Hb).
+  cbn [option_map]. rewrite canonical_filter_g, list_diff_g_false. reflexivity.
+Qed.
